@@ -87,7 +87,11 @@ def r17_1(run):
     for s in stores:
         v = s.value
         if isinstance(v, ast.Call) and fx.ext_name_of(init, v.func) == "numpy.asarray":
-            tt = [n for n, st in cfgi.stmt.items() if cfgi.label[n] == "If" and norm(st) == "copy is False"]
+            def _has_conj(st):  # `copy is False`, possibly as one conjunct (`NP_IS_V2 and copy is False`)
+                parts = st.values if isinstance(st, ast.BoolOp) and isinstance(st.op, ast.And) else [st]
+                return any(norm(p) == "copy is False" for p in parts)
+
+            tt = [n for n, st in cfgi.stmt.items() if cfgi.label[n] == "If" and _has_conj(st)]
             ok = any(cfgi.edge_dominates(q, "true", cfgi.node_for(s)) for q in tt) and norm(v.args[0]) == x \
                 and norm(kw(v, "dtype") or ast.Constant(0)) == "dtype"
             run.ob("R17.1", loc(init, s), init.short, "np.asarray(x, dtype=dtype) used exactly when copy is False", ok,
